@@ -9,14 +9,17 @@
 (*          sees depends on what kind of node its parent became.            *)
 (*  lxml:   the element's in-scope namespaces (element.nsmap).              *)
 (*                                                                         *)
-(* A document here is a chain root > mid > leaf with namespace declarations *)
+(* A document here is a chain root > mid > leaf (root > union > inner > leaf   *)
+(* for union-typed middles) with namespace declarations                    *)
 (* on each level; the leaf carries a QName-typed value whose prefix must be *)
 (* resolved with the map delivered for the leaf.  The reference is the XML  *)
 (* Namespaces scoping rule.                                                 *)
 (***************************************************************************)
 EXTENDS Naturals, Sequences, SequencesExt, FiniteSets, TLC, Json
 
-CONSTANTS WrapperPolicy   \* "parent" (as shipped: WrapperNode.ns_map = parent.ns_map) | "own"
+CONSTANTS WrapperPolicy,  \* "parent" (as shipped: WrapperNode.ns_map = parent.ns_map) | "own"
+          UnionPolicy     \* "root" (as shipped: a UnionNode stands in for all its descendants and keeps the map of the union
+                          \*  element itself) | "open" (repaired: while a descendant is open its map is the one in scope)
 
 NONE == "__none__"
 Has(m, k) == \E i \in DOMAIN m : m[i][1] = k
@@ -34,6 +37,8 @@ Merge(parentMap, hasParent, elMap) ==
 NodeMap(kind, delivered, parentMap) ==
   CASE kind = "skip"    -> <<>>                         \* SkipNode.ns_map = {}
     [] kind = "wrapper" -> IF WrapperPolicy = "parent" THEN parentMap ELSE delivered
+    \* an element INSIDE a union-typed field: the node on the queue is still the union node
+    [] kind = "unionChild" -> IF UnionPolicy = "root" THEN parentMap ELSE delivered
     [] OTHER            -> delivered
 
 \* levels: Seq of [kind, decls]; returns the map delivered to each level
